@@ -15,7 +15,7 @@ EXPLANATION = (
     "partitions returned by compute_one_level pass through a filter that drops empty communities, and the initial partition consists "
     "of one-element sets.  R-C13-3: louvain_communities returns the LAST level of louvain_partitions (Vec::pop on its result, behind "
     "an emptiness test) or NoPartitions, and propagates its errors.  R-C13-4: within a level, communities are only changed by moving "
-    "a node's whole member set (difference / union with the same set).  R-C13-10: a community node's member set is built from its members' attribute sets.  NOT decided, stated plainly: that Louvain terminates, that each "
+    "a node's whole member set (difference / union with the same set).  R-C13-10: a community node's member set is built from its members' attribute sets.  R-C13-11: the neighbour-weight loops have no exit but the exhaustion of their iterator.  NOT decided, stated plainly: that Louvain terminates, that each "
     "level is a coarsening of the previous one as a value-level fact, and that modularity never decreases -- these depend on run-time "
     "floating-point gains and are outside static reach."
 )
@@ -313,6 +313,37 @@ def run(ctx):
             ctx.require(reads_attr, "R-C13-10", "member-sets|%d" % n10, "the member set of a community node is built from its members' attributes",
                         "generate_graph builds the member set of a community node without reading its members' `attributes`: from the third level on the members are community indexes of the level below, not original nodes, so compute_one_level moves the wrong ids between communities -- the later levels are no longer partitions of the graph nor coarsenings of the level before", loc_str(t.span))
     ctx.floor("R-C13-10", "community_nodes_built", n10, 1)
+    # ------------------------------------------------------------------ R-C13-11
+    # the neighbour-community weights are sums over ALL neighbours of the node; the only neighbour that is skipped is
+    # the node itself (its self-loop).  Skipping is `continue`: a loop over the neighbours that can be LEFT before the
+    # iterator is exhausted drops every neighbour that comes after the one that triggered the exit, the gains are
+    # computed from partial sums and the local-move loop loses its potential (it can oscillate forever).
+    ctx.rule("R-C13-11", "the loops that accumulate a node's neighbour-community weights end only when the neighbours are exhausted (no break / return inside)")
+    from hashord import natural_loop_blocks as _nlb11
+
+    n11 = 0
+    for p11 in sorted(prog.bodies):
+        b11 = prog.bodies[p11]
+        if b11.kind == "closure" or not b11.short.startswith("algorithms::community::louvain::") or "neighbor_weights" not in b11.short.split("::")[-1]:
+            continue
+        for t11 in b11.calls():
+            if not (t11.callee and t11.callee.short == "std::iter::Iterator::next"):
+                continue
+            lb11 = _nlb11(b11, t11.bb)
+            if len(lb11) <= 1:
+                continue
+            n11 += 1
+            # the header's own exit: the switch on next()'s result (the block that follows the call)
+            exits = []
+            for x in lb11:
+                for y in b11.succ(x):
+                    if y not in lb11:
+                        exits.append((x, y))
+            hdr_switch = {y for y in b11.succ(t11.bb)} | {t11.bb}
+            early = [(x, y) for (x, y) in exits if x not in hdr_switch]
+            ctx.require(not early, "R-C13-11", "neighbour-loop|%s|%d" % (b11.short.split("::")[-1], n11), "the neighbour loop in %s runs until its iterator is exhausted" % b11.short.split("::")[-1],
+                        "a loop over a node's neighbours in %s can be left before the iterator is exhausted (exit at %s): the neighbours after that point add nothing to the neighbour-community weights, the node's ties to its own community are under-counted and the local-move loop of compute_one_level can move nodes back and forth forever" % (b11.short, ", ".join(loc_str(b11.blocks[x].term.span) for (x, y) in early[:2])), loc_str(b11.blocks[early[0][0]].term.span) if early else loc_str(t11.span))
+    ctx.counters["neighbour_weight_loops"] = n11  # no floor: an iterator chain has no early exit to look for; the positive example is the seeded fixture R10_C13
     # ------------------------------------------------------------------ R-C13-8
     from engines import check_unwrapped_callee_kinds
 
